@@ -75,7 +75,8 @@ def gen_env(r):
             "stdin": [r.pick(["pipe", "file", "file"]), r.pick([0, 0, 1, 17, 4096, 70000])],
             "proc": [r.below(2), r.pick([0o022, 0o077, 0, 0o777])],   # SIGPIPE inherited as ignored; umask
             "envfuzz": r.range(1, 1 << 30),    # answers to getenv() calls of the compiler itself (none in the unchanged tree)
-            "preexist": r.pick([0, 0, 1, 7, 5000, 400000]),   # bytes of old content in the output and dependency files before the run
+            # bytes of old content in the output and dependency files before the run; -1: what an earlier, slightly different build left there
+            "preexist": r.pick([0, 0, 1, 7, 5000, 400000, -1, -1]),
             "links": r.below(3),   # how a header that duplicates another one exists: a copy, a hard link, a symbolic link
             "cwd": "cw" + "".join(r.pick("abcdefghij_") for _ in range(r.pick([1, 3, 8, 40, 120]))),
             "fds": r.pick([0, 0, 1, 3, 17]),
@@ -628,7 +629,25 @@ def run_replica(sdir, reps, stage, e, infile, opts, src, wdir, stats, timeout=No
                     f.write(atext)
     out = os.path.join(wdir, "out.bin")
     dep = os.path.join(wdir, "out.d")
+    hist_old = None
+    if e.get("preexist") == -1:
+        # history: the same replica in the same environment has built this before -- with -MP in addition when dependencies are
+        # written (the old rule file then begins with the new one and goes on), else from a source that had two more definitions
+        e0 = dict(e, preexist=0)
+        deps = any(o in opts for o in ("-MD", "-MMD", "-M"))
+        orig = open(infile, "rb").read()
+        try:
+            if not deps:
+                with open(infile, "ab") as f:
+                    f.write(b"\nint verif_history_extra_object = 1;\nint verif_history_extra_fn(void) { return 2; }\n")
+            r0 = run_replica(sdir, reps, stage, e0, infile, opts + (["-MP"] if deps and "-MP" not in opts else []), src, wdir, None, timeout=timeout, aux=aux, bigstack=bigstack)
+        finally:
+            with open(infile, "wb") as f:
+                f.write(orig)
+        hist_old = (r0.get("out_raw"), r0.get("dep_raw"))
     for f in (out, dep):
+        if hist_old is not None:
+            continue        # whatever the earlier build left stays where it is
         if os.path.exists(f):
             os.unlink(f)
         if e.get("preexist"):
@@ -706,14 +725,17 @@ def run_replica(sdir, reps, stage, e, infile, opts, src, wdir, stats, timeout=No
     # the assembler names its input, a temporary with a random name, in its own messages: not compiler output
     err = re.sub(rb"/tmp/chibicc-[A-Za-z0-9]{6}", b"/tmp/chibicc-TEMP", p.stderr)
     res = {"status": p.returncode, "stdout": p.stdout, "stderr": err, "out": None, "dep": None}
-    old = (b"OLD CONTENT %d\n" % e["preexist"]) * (e["preexist"] // 14 + 1) if e.get("preexist") else None
+    old = (b"OLD CONTENT %d\n" % e["preexist"]) * (e["preexist"] // 14 + 1) if e.get("preexist", 0) > 0 else None
+    old_dep = old
+    if hist_old is not None and res["status"] != 0:
+        old, old_dep = hist_old      # a failed run leaves the earlier files alone
     if os.path.exists(out):
-        res["out"] = open(out, "rb").read()
+        res["out"] = res["out_raw"] = open(out, "rb").read()
         if res["out"] == old:
             res["out"] = None       # left alone: the same as not having been there
     if os.path.exists(dep):
-        res["dep"] = open(dep, "rb").read()
-        if res["dep"] == old:
+        res["dep"] = res["dep_raw"] = open(dep, "rb").read()
+        if res["dep"] == old_dep:
             res["dep"] = None
     return res
 
